@@ -142,7 +142,7 @@ pub fn family(n: usize, seed: u64) -> Vec<LargeInput> {
 pub fn asymmetric(seed: u64) -> Vec<LargeInput> {
     let mut out = vec![];
     let mut g = Lcg(0xa5a5 ^ seed);
-    for &(a, b) in &[(1usize, 600usize), (2, 530), (10, 520), (40, 800), (255, 300), (257, 256)] {
+    for &(a, b) in &[(1usize, 600usize), (2, 530), (10, 520), (40, 800), (255, 300), (257, 256), (1, 8200), (100, 9000)] {
         let long: Vec<u32> = (0..b as u32).map(|i| 5000 + i).collect();
         // short side unrelated
         let short: Vec<u32> = (0..a as u32).map(|i| 9000 + i).collect();
@@ -294,6 +294,87 @@ pub fn mixed_shapes(seed: u64) -> Vec<LargeInput> {
     out
 }
 
+/// items of the common head / tail that reappear exactly once in the changed middle of both
+/// sides and cross the genuinely unique items there ("echo" of the surroundings)
+pub fn echo_shapes(_seed: u64) -> Vec<LargeInput> {
+    let mut out = vec![];
+    for &h in &[0usize, 50, 96, 120, 300] {
+        for &k in &[1usize, 3] {
+            for &e in &[2usize, 4] {
+                let head: Vec<u32> = (0..h as u32).map(|i| 300_000 + i).collect();
+                let tail: Vec<u32> = (0..(h / 2) as u32).map(|i| 400_000 + i).collect();
+                let echo: Vec<u32> = (0..e as u32).map(|i| 500 + i).collect();
+                let uniq: Vec<u32> = (0..k as u32).map(|i| 600 + i).collect();
+                let cat = |parts: &[&Vec<u32>]| -> Vec<u32> { parts.iter().flat_map(|p| p.iter().copied()).collect() };
+                // echo of the head end
+                out.push(LargeInput {
+                    name: format!("echo-head{}-uniq{}-echo{}-a", h, k, e),
+                    old: cat(&[&head, &echo, &uniq, &echo, &tail]),
+                    new: cat(&[&head, &echo, &echo, &uniq, &tail]),
+                });
+                // echo of the tail start
+                out.push(LargeInput {
+                    name: format!("echo-head{}-uniq{}-echo{}-b", h, k, e),
+                    old: cat(&[&head, &echo, &uniq, &echo, &tail]),
+                    new: cat(&[&head, &uniq, &echo, &echo, &tail]),
+                });
+                // both orders swapped
+                out.push(LargeInput {
+                    name: format!("echo-head{}-uniq{}-echo{}-c", h, k, e),
+                    old: cat(&[&head, &echo, &echo, &uniq, &tail]),
+                    new: cat(&[&head, &echo, &uniq, &echo, &tail]),
+                });
+            }
+        }
+    }
+    out
+}
+
+/// thousands of small hunks (more raw ops than any batch / window / buffer size one might
+/// pick), many of them insertions of a duplicate that Compact has to slide
+pub fn many_hunks(_seed: u64) -> Vec<LargeInput> {
+    let mut out = vec![];
+    for &n in &[4500usize, 9000] {
+        for kind in 0..3 {
+            let b: Vec<u32> = match kind {
+                0 => (0..n as u32).map(|i| 200_000 + i).collect(),
+                1 => (0..n).map(|i| (i % 2) as u32).collect(),
+                _ => (0..n).map(|i| ((i / 3) % 5) as u32).collect(),
+            };
+            let nm = |s: &str| format!("hunks-{}-{}-{}", n, ["distinct", "period2", "triples"][kind], s);
+            // every 3rd item duplicated
+            let mut v = vec![];
+            for (i, &x) in b.iter().enumerate() {
+                v.push(x);
+                if i % 3 == 1 {
+                    v.push(x);
+                }
+            }
+            out.push(LargeInput { name: nm("every-3rd-duplicated"), old: b.clone(), new: v.clone() });
+            out.push(LargeInput { name: nm("every-3rd-duplicate-removed"), old: v, new: b.clone() });
+            // every 4th item substituted
+            let mut v = b.clone();
+            for i in (0..n).step_by(4) {
+                v[i] = 900_000 + i as u32;
+            }
+            out.push(LargeInput { name: nm("every-4th-substituted"), old: b.clone(), new: v });
+            // every 5th item deleted, and a copy of the following item inserted two places later
+            let mut v = vec![];
+            for (i, &x) in b.iter().enumerate() {
+                if i % 5 == 0 {
+                    continue;
+                }
+                v.push(x);
+                if i % 5 == 3 {
+                    v.push(b[(i + 1).min(n - 1)]);
+                }
+            }
+            out.push(LargeInput { name: nm("every-5th-deleted-and-neighbour-copied"), old: b.clone(), new: v });
+        }
+    }
+    out
+}
+
 /// inputs whose changed middle has more than 2^20 cells for a quadratic table: only ever run
 /// with LCS by the checks that ask for them (one LCS diff of this size takes about a second)
 pub fn lcs_big() -> Vec<LargeInput> {
@@ -304,10 +385,32 @@ pub fn lcs_big() -> Vec<LargeInput> {
             new: std::iter::once(1).chain((0..1030u32).map(|i| 20_000 + i)).chain(std::iter::once(2)).collect(),
         },
         LargeInput {
+            name: "lcsbig-4100x4100-unrelated".into(),
+            old: (0..4100u32).map(|i| 10_000 + i).collect(),
+            new: (0..4100u32).map(|i| 20_000 + i).collect(),
+        },
+        LargeInput {
             name: "lcsbig-700x1600-one-common".into(),
             old: (0..700u32).map(|i| if i == 350 { 7 } else { 10_000 + i }).collect(),
             new: (0..1600u32).map(|i| if i == 900 { 7 } else { 20_000 + i }).collect(),
         },
+    ]
+}
+
+/// near-identical inputs with more than 2^16 distinct items in total (integer-width limits of
+/// id tables); cheap for every algorithm because almost everything is common prefix / suffix
+pub fn wide() -> Vec<LargeInput> {
+    let old: Vec<u32> = (0..65_535u32).map(|i| 100_000 + i).collect();
+    let mut new = old.clone();
+    new[0] = 7;
+    new[1] = 8;
+    let mut new2 = old.clone();
+    new2[30_000] = 7;
+    new2.insert(60_000, 8);
+    new2.push(9);
+    vec![
+        LargeInput { name: "wide-65535-first-two-replaced".into(), old: old.clone(), new },
+        LargeInput { name: "wide-65535-three-edits".into(), old, new: new2 },
     ]
 }
 
@@ -320,10 +423,21 @@ pub fn all(tier: Tier, seed: u64) -> Vec<LargeInput> {
     v.extend(many_unique(seed));
     v.extend(threshold_sweep(seed));
     v.extend(mixed_shapes(seed));
+    v.extend(many_hunks(seed));
+    v.extend(echo_shapes(seed));
     v
 }
 
 pub fn find(name: &str, seed: u64) -> Option<LargeInput> {
+    if name.starts_with("echo-") {
+        return echo_shapes(seed).into_iter().find(|f| f.name == name);
+    }
+    if name.starts_with("hunks-") {
+        return many_hunks(seed).into_iter().find(|f| f.name == name);
+    }
+    if name.starts_with("wide-") {
+        return wide().into_iter().find(|f| f.name == name);
+    }
     if name.starts_with("thr-") {
         return threshold_sweep(seed).into_iter().find(|f| f.name == name);
     }
@@ -350,8 +464,10 @@ pub fn describe(tier: Tier) -> serde_json::Value {
         "bases": BASES,
         "threshold_sweep": "sizes T-1..T+2 for T in 16,32,64,100,128,256,512,1024 x {distinct, period 3} x 8 edits at the ends / middle",
         "mixed_shapes": "sizes 40,150,400 x {distinct, 5-symbol random, nested repetition} x {three kinds of edits far apart, moved block with a substitution inside, periodic deletes and duplicates, doubled, halved, inner third reversed}",
+        "echo_shapes": "common head (0..300 items) and tail whose last/first items reappear once in the changed middle of both sides, crossing 1 or 3 unique items",
+        "many_hunks": "4500 / 9000 items x {distinct, period 2, runs of three} x {every 3rd duplicated, duplicates removed, every 4th substituted, every 5th deleted + neighbour copied}: thousands of hunks",
         "many_unique": "300/520/700 blocks S_i M_i 0 0 0 vs S_i 0 0 0 M_i; 1100/2100 distinct items with 20 substitutions or two interleaved halves",
-        "asymmetric": "side lengths 1x600, 2x530, 10x520, 40x800, 255x300, 257x256 (both orientations): unrelated, subsequence, one common item, 4-symbol random",
+        "asymmetric": "side lengths 1x600, 2x530, 10x520, 40x800, 255x300, 257x256, 1x8200, 100x9000 (both orientations): unrelated, subsequence, one common item, 4-symbol random",
         "shapes": "identical; 1/3/8/n/5 evenly spread substitutions, deletions, insertions, duplicated items; block move; block appended; halves swapped; shift by one; versus empty / single; common prefix only; common suffix only; unrelated; reversed; independent random texts over 2/4/16 symbols; shuffled unique anchors with junk",
         "note": "enumerated family, not exhaustive",
     })
@@ -363,6 +479,20 @@ use crate::engine::{explore, CheckReport, RunCfg};
 use crate::oracles::alg_name;
 use serde_json::{json, Value};
 use similar::Algorithm;
+
+/// table cells LCS would have to fill for this input (after prefix / suffix stripping)
+pub fn lcs_cells(inp: &LargeInput) -> u128 {
+    let (o, n) = (&inp.old, &inp.new);
+    let p = o.iter().zip(n.iter()).take_while(|(a, b)| a == b).count();
+    let s = o[p..].iter().rev().zip(n[p..].iter().rev()).take_while(|(a, b)| a == b).count();
+    ((o.len() - p - s) as u128) * ((n.len() - p - s) as u128)
+}
+
+/// LCS keeps its table in a BTreeMap: only run it where the table stays below ~10^5 cells
+/// (the explicit `lcs_big` inputs have empty tables and are run separately)
+pub fn lcs_affordable(inp: &LargeInput) -> bool {
+    lcs_cells(inp) <= 100_000
+}
 
 pub fn case_json(alg: Algorithm, inp: &LargeInput, seed: u64) -> Value {
     json!({"large": inp.name, "seed": seed, "algorithm": alg_name(alg), "old_len": inp.old.len(), "new_len": inp.new.len()})
@@ -378,7 +508,11 @@ where
     let mut work: Vec<(Algorithm, usize)> = vec![];
     for (i, inp) in inputs.iter().enumerate() {
         for &a in algs {
-            if inp.old.len().max(inp.new.len()) <= max_size_for(a) {
+            if a == Algorithm::Lcs {
+                if lcs_affordable(inp) {
+                    work.push((a, i));
+                }
+            } else if inp.old.len().max(inp.new.len()) <= max_size_for(a) {
                 work.push((a, i));
             }
         }
